@@ -440,8 +440,8 @@ theorem inline_const_loop_body_scope_fixed :
 constants after `_translate_if` is the table before it — for every option tuple, every node translator `recIn` (any
 nesting), every state, and also when the If is dropped as dead.  Hence no constant of a branch is visible in the
 other branch (the else-branch starts from the saved table) or after the statement. -/
-theorem if_constants_scoped (o : Opts) (recIn : Node → St → R) (n : Node) (indent : Nat) (st : St)
-    (lines : List String) (st' : St) (h : translateIf o recIn n indent st = .ok (lines, st')) :
+theorem if_constants_scoped (o : Opts) (recIn : Node → St → R) (d : Nat) (n : Node) (indent : Nat) (st : St)
+    (lines : List String) (st' : St) (h : translateIf o recIn d n indent st = .ok (lines, st')) :
     st'.constants = st.constants := by
   unfold translateIf at h
   simp only at h
@@ -460,7 +460,7 @@ theorem if_constants_scoped (o : Opts) (recIn : Node → St → R) (n : Node) (i
 /-- non-vacuity of `if_constants_scoped`: an If whose then-branch inlines a constant is translated (not refused), from
 a state that already holds a constant -/
 example :
-    ((translateIf ⟨false, false, true, false⟩ (translateNode ⟨false, false, true, false⟩ [("", 18)] 2 2)
+    ((translateIf ⟨false, false, true, false⟩ (translateNode ⟨false, false, true, false⟩ [("", 18)] 2 2) 2
         (.mk "If" "" "" ["c"] ["y"]
           [("then_branch", .graph (.mk [] ["t"] [] 0 [.mk "Constant" "" "" [] ["t"] [("value", .tensor 1 [] true "#0")]])),
            ("else_branch", .graph (.mk [] ["r2"] [] 0 [.mk "Neg" "" "" ["x"] ["r2"] []]))])
@@ -474,11 +474,11 @@ theorem function_constants_cleared (o : Opts) (d : Nat) (f : FunctionP) (st : St
   unfold funcState
   simp only [OV.C13.translateVars_constants]
 
-/-- C13-READ-SCOPE (open): `_names_read` is one flat set of ONNX names.  The inner If of the then-branch is dead (its
-result `a` is read nowhere in its scope), but the else-branch defines and reads its own `a` (sibling scopes may
-define the same name), so the dead If is printed — `a` assigned in both inner branches and never read before the
-block ends — and the converter refuses the text. -/
-theorem read_scope_sibling_witness :
+/-- C13-READ-SCOPE (fixed by ce0fc89): `_names_read` is the read set of the graph being translated.  The inner If of the
+then-branch is dead (its result `a` is read nowhere in its graph); the else-branch defines and reads its own `a`
+(sibling scopes may define the same name).  The dead If is now dropped (pre-fix it was printed, `a` assigned in both
+inner branches and never read, and the converter refused the text).  Must-pass regression case of the harness. -/
+theorem read_scope_sibling_fixed :
     (exportModel ⟨false, false, false, false⟩ 4 ⟨"g", none, [("", 18)],
         .mk ["c", "x"] ["y"] [] 0
           [.mk "If" "" "" ["c"] ["y"]
@@ -489,11 +489,32 @@ theorem read_scope_sibling_witness :
                   .mk "Relu" "" "" ["x"] ["r1"] []])),
               ("else_branch", .graph (.mk [] ["r2"] [] 0
                  [.mk "Tanh" "" "" ["x"] ["a"] [], .mk "Identity" "" "" ["a"] ["r2"] []]))]]⟩).toOption
-      = some ["deco ", "sig g(c,x|)", "L1 if c", "L2 if c", "L3 call k1 = opset18.Neg(x|)", "L3 assign a = k1", "L2 else",
-              "L3 call k2 = opset18.Abs(x|)", "L3 assign a = k2", "L2 call r1 = opset18.Relu(x|)", "L2 assign y = r1",
-              "L1 else", "L2 call a = opset18.Tanh(x|)", "L2 call r2 = opset18.Identity(a|)", "L2 assign y = r2",
+      = some ["deco ", "sig g(c,x|)", "L1 if c", "L2 call r1 = opset18.Relu(x|)", "L2 assign y = r1", "L1 else",
+              "L2 call a = opset18.Tanh(x|)", "L2 call r2 = opset18.Identity(a|)", "L2 assign y = r2",
               "L1 return y"] := by
   decide +kernel
+
+/-- **`graph_body_read_set_scoped`** (ce0fc89, for every subgraph): while a subgraph is translated `_names_read` is that
+graph's own set (`graphBodyR` is `graphBody` from the state with `namesRead := g.outputs ++ namesReadBy d g.nodes`), and
+afterwards the enclosing graph's set is back — for every option tuple, node translator, graph and state. -/
+theorem graph_body_read_set_scoped (o : Opts) (d : Nat) (rec : Node → St → R) (g : Graph) (st : St)
+    (lines : List String) (st' : St) (h : graphBodyR o d rec g st = .ok (lines, st')) :
+    st'.namesRead = st.namesRead
+    ∧ ∃ st1, graphBody o rec g { st with namesRead := g.outputs ++ namesReadBy d g.nodes } = .ok (lines, st1) := by
+  unfold graphBodyR at h
+  simp only at h
+  split at h
+  · cases h
+  · rename_i l st1 heq
+    simp only [Except.ok.injEq, Prod.mk.injEq] at h
+    exact ⟨by rw [← h.2], ⟨st1, by rw [heq, h.1]⟩⟩
+
+/-- non-vacuity: a subgraph is translated from a state whose read set is another graph's -/
+example :
+    ((graphBodyR ⟨false, false, false, false⟩ 2 (translateNode ⟨false, false, false, false⟩ [("", 18)] 2 2)
+        (.mk [] ["r2"] [] 0 [.mk "Neg" "" "" ["x"] ["r2"] []]) { namesRead := ["a", "y"] }).toOption.map
+          (fun r => (r.1, r.2.namesRead)))
+      = some (["L2 call r2 = opset18.Neg(x|)"], ["a", "y"]) := by decide +kernel
 
 /-- C13-OPSET-NAME (fixed by 7e6d802): the module-level names of the generated text (opset aliases, `np`,
 `make_tensor`, …, the imported type names) are reserved in the unique-name mapper: a value named `opset18` is
